@@ -363,6 +363,29 @@ def _run(ck, m):
                 ok = desc == ['const(-1)']
             ck.ob('C04.f', 'dispatcher', '%s:store-argument' % v, ok,
                   '%s hands %s to %s' % (v, desc, short(ev.name)), ev.loc())
+    # ... and whatever else the arm hands the number to (the builder of the message forwarded to the primary, a Change): the very field of
+    # the request, never a number looked up on this node — a secondary that forwards an unversioned set "with the version it applied it
+    # on" turns it into a versioned write, which the primary refuses when its own copy of the key has moved on: the nodes keep different values
+    for v, field in (('Set', 'version'), ('Increment', 'inc')):
+        effs, raw = m.arm_effects(v)
+        seen_sites = set()
+        for ev in raw:
+            if ev.kind != 'local-call' or m.in_guard(ev.guards) or not ev.frame.body.id.startswith(d.id):
+                continue
+            cb_ = m.prog.bodies.get(ev.name)
+            if cb_ is None or ev.name in {s_.id for s_ in stores} or ev.name == incf.id:
+                continue
+            for j, a in enumerate(ev.term['args']):
+                if j + 1 > cb_.argc or cb_.locals[j + 1] != 'i32' or (ev.frame.body.id, ev.bi, j) in seen_sites:
+                    continue
+                seen_sites.add((ev.frame.body.id, ev.bi, j))
+                nf += 1
+                desc = sorted(ex.describe(x) for x in ex.absvals(ev.frame, a))
+                ok = desc == ['arg1.<%s>.%s' % (v, field)]
+                ck.ob('C04.f', 'dispatcher', '%s:%s:number-handed-on' % (v, short(ev.name)), ok,
+                      '%s hands %s to %s' % (v, desc, short(ev.name)) if ok else
+                      '%s hands %s to %s (expected the request\'s own `%s`): the number that travels to the other nodes is not the one the '
+                      'client sent' % (v, desc, short(ev.name), field), ev.loc())
     rb, rsw = m.replication_table()
     for v, fmts in em.items():
         for f in fmts:
